@@ -516,6 +516,18 @@ package go_clipper2
 //@   trusted
 //@   ensures [abstract] same(result, rectClipExec(old(r.rect), old(r.getPath), paths))
 
+//@ spec rectClipLinesExec(rect Rect64, paths Paths64) Paths64
+
+//@ func RectClipLines64.Execute
+//@   props C07 C11
+//@   trusted
+//@   ensures [abstract] same(result, rectClipLinesExec(old(r.rect), paths))
+
+//@ func RectClipLines64.Execute variant total
+//@   props C03 C11
+//@   panicfree
+//@   requires r != nil && r.RectClip64 != nil && r.getPath != nil
+
 //@ func NewRectClip64
 //@   props C07 C06 C11
 //@   requires rectDom(rect)
@@ -534,7 +546,7 @@ package go_clipper2
 //@   props C07 C11
 //@   requires rectDom(rect)
 //@   ensures [empty] (rect.bottom <= rect.top || rect.right <= rect.left || len(paths) == 0) ==> len(result) == 0
-//@   ensures [exec] !(rect.bottom <= rect.top || rect.right <= rect.left || len(paths) == 0) ==> same(result, rectClipExec(rect, getPathRectClipLine, paths))
+//@   ensures [exec] !(rect.bottom <= rect.top || rect.right <= rect.left || len(paths) == 0) ==> same(result, rectClipLinesExec(rect, paths))
 
 //@ func RectClipPathsD
 //@   props C07
@@ -548,7 +560,7 @@ package go_clipper2
 //@   requires absI(rect.left*pow10(precOf(precisionV))) < 2305843009213693952.0 && absI(rect.top*pow10(precOf(precisionV))) < 2305843009213693952.0 && absI(rect.right*pow10(precOf(precisionV))) < 2305843009213693952.0 && absI(rect.bottom*pow10(precOf(precisionV))) < 2305843009213693952.0
 //@   panics precOf(precisionV) < -8 || precOf(precisionV) > 8
 //@   ensures [empty] (rect.bottom <= rect.top || rect.right <= rect.left || len(paths) == 0) ==> len(result) == 0
-//@   ensures [composition] !(rect.bottom <= rect.top || rect.right <= rect.left || len(paths) == 0) ==> same(result, ScalePaths64ToPathsD(rectClipExec(ScaleRectD(rect, pow10(precOf(precisionV))), getPathRectClipLine, ScalePathsDToPaths64(paths, pow10(precOf(precisionV)))), 1/pow10(precOf(precisionV))))
+//@   ensures [composition] !(rect.bottom <= rect.top || rect.right <= rect.left || len(paths) == 0) ==> same(result, ScalePaths64ToPathsD(rectClipLinesExec(ScaleRectD(rect, pow10(precOf(precisionV))), ScalePathsDToPaths64(paths, pow10(precOf(precisionV)))), 1/pow10(precOf(precisionV))))
 
 // ---------------------------------------------------------------------------------
 // C01 / C19 / C09: necessary-condition lemmas on the sweep's winding bookkeeping
@@ -1507,6 +1519,16 @@ package go_clipper2
 //@   ensures [left-the-previous-side] *i <= highI ==> *loc != old(*loc)
 
 //@ spec rectOK(r *RectClip64) bool = len(r.rectPath) == 4 && rectDom(r.rect) && r.rectPath[0] == Point64{r.rect.left, r.rect.top} && r.rectPath[1] == Point64{r.rect.right, r.rect.top} && r.rectPath[2] == Point64{r.rect.right, r.rect.bottom} && r.rectPath[3] == Point64{r.rect.left, r.rect.bottom} && len(r.edges) == 8 && dom(r.mp, 29)
+
+// the line clipper's walk: every index expression in range for every open path, including
+// paths whose leading vertices (or all vertices) lie on the rectangle boundary
+//@ func RectClip64.executeInternalPath64
+//@   props C11 C03
+//@   assumes domPath(path, 28) && absI(r.rect.left) <= pow2(28) && absI(r.rect.right) <= pow2(28) && absI(r.rect.top) <= pow2(28) && absI(r.rect.bottom) <= pow2(28)
+//@   assumes rectOK(r) && forall(k, 0, len(r.results), r.results[k] != nil)
+//@   loop 0 invariant [look-ahead] 1 <= i && i <= highI && highI == len(path) - 1 && len(path) >= 2
+//@   loop 0 decreases highI - i
+//@   loop 2 invariant [walk] 1 <= i && highI == len(path) - 1 && len(path) >= 2 && validLoc(loc) && rectOK(r)
 
 //@ func RectClip64.addCorner
 //@   props C06 C03
